@@ -97,7 +97,7 @@ func (w *worker) call(dec string, in []byte) resp {
 			return resp{Class: "dead"}
 		}
 		return parseResp(s)
-	case <-time.After(8 * time.Second):
+	case <-time.After(4 * time.Second):
 		w.kill()
 		return resp{Class: "hang"}
 	}
@@ -119,9 +119,9 @@ func parseResp(s string) resp {
 			r.Digest = append(r.Digest, v)
 		}
 	}
-	m, _ := hex.DecodeString(f[4])
+	m, _ := hex.DecodeString(strings.TrimPrefix(f[4], "x"))
 	r.Msg = string(m)
-	e, _ := hex.DecodeString(f[5])
+	e, _ := hex.DecodeString(strings.TrimPrefix(f[5], "x"))
 	r.Extra = string(e)
 	return r
 }
@@ -245,26 +245,29 @@ func run(dec string, in []byte, class string) resp {
 
 // ---------------------------------------------------------------- generic hostile derivations
 
-var mutVals = []byte{0, 1, 2, 3, 5, 7, 0x3f, 0x40, 0x7f, 0x80, 0xfe, 0xff}
+var mutVals = []byte{0, 1, 0x7f, 0x80, 0xff}
 
-func derive(dec string, m []byte, mutLimit int) {
+// derive: the valid message, every truncation (at most ~48, always the short ones and the last
+// ones), one trailing byte, and single-byte mutations of the bytes at `pos` (the length/count
+// fields): five boundary values plus the two neighbours of the original value.
+func derive(dec string, m []byte, pos []int) {
 	run(dec, m, "valid")
-	// every truncation
-	step := 1
-	if len(m) > 400 {
-		step = len(m) / 200
-	}
-	for i := 0; i < len(m); i += step {
+	for i := 0; i < len(m); i++ {
+		if len(m) > 40 && i > 20 && i < len(m)-10 && !thorough {
+			if i%((len(m)/8)+1) != 0 {
+				continue
+			}
+		}
 		run(dec, m[:i], "truncated")
 	}
-	// one trailing byte
 	run(dec, append(append([]byte{}, m...), 0), "trailing")
-	// single-byte mutations of the leading part (where the length/count fields live)
-	n := len(m)
-	if n > mutLimit {
-		n = mutLimit
-	}
-	for p := 0; p < n; p++ {
+	for _, p := range pos {
+		if p < 0 {
+			p += len(m)
+		}
+		if p < 0 || p >= len(m) {
+			continue
+		}
 		for _, v := range mutVals {
 			if v == m[p] {
 				continue
@@ -279,6 +282,14 @@ func derive(dec string, m []byte, mutLimit int) {
 			run(dec, x, "mutated")
 		}
 	}
+}
+
+func upto(n int) []int {
+	r := make([]int, n)
+	for i := range r {
+		r[i] = i
+	}
+	return r
 }
 
 var alphabet = []byte{0, 1, 3, 5, 7, 0x40, 0x80, 0xff}
@@ -323,7 +334,7 @@ func main() {
 	thorough = fl.Tier == "thorough"
 	out = vh.NewOut("C04", fl, "From XMT Require Import Base.Prelude Model.Codec Model.Decoders.", "case", "check",
 		"non-trivial = non-empty input whose outcome is not a plain io.EOF with a small allocation")
-	out.ShardSize = 1500
+	out.ShardSize = 400
 	rng = vh.NewRand(fl.Seed)
 	wk = &worker{}
 	defer wk.kill()
